@@ -1,5 +1,5 @@
 # Copyright (C) 2022 Andrea Francia Bereguardo(PV) Italy
-from typing import Iterable
+from typing import Iterable, List
 
 from trashcli.empty.console import Console
 from trashcli.empty.delete_according_date import DeleteAccordingDate
@@ -24,29 +24,43 @@ class Emptier:
                  dry_run,  # type: bool
                  verbose,  # type: int
                  ):  # type: (...) -> None
-        for path in self.files_to_delete(trash_dirs, environ, parsed_days):
-            if dry_run:
-                self.console.print_dry_run(path)
-            else:
-                if verbose:
-                    self.console.print_removing(path)
-                try:
-                    self.file_remover.remove_file_if_exists(path)
-                except OSError:
-                    self.console.print_cannot_remove_error(path)
+        for paths in self.entries_to_delete(trash_dirs, environ, parsed_days):
+            for path in paths:
+                if dry_run:
+                    self.console.print_dry_run(path)
+                else:
+                    if verbose:
+                        self.console.print_removing(path)
+                    try:
+                        self.file_remover.remove_file_if_exists(path)
+                    except OSError:
+                        self.console.print_cannot_remove_error(path)
+                        # the .trashinfo goes last: without it what is left
+                        # of the trashed file would no longer be listed
+                        # nor restorable
+                        break
 
     def files_to_delete(self,
                         trash_dirs,  # type: Iterable[TrashDir]
                         environ,  # type: dict
                         parsed_days,  # type: int
                         ):  # type: (...) -> Iterable[str]
+        for paths in self.entries_to_delete(trash_dirs, environ, parsed_days):
+            for path in paths:
+                yield path
+
+    def entries_to_delete(self,
+                          trash_dirs,  # type: Iterable[TrashDir]
+                          environ,  # type: dict
+                          parsed_days,  # type: int
+                          ):  # type: (...) -> Iterable[List[str]]
         for trash_dir in only_found(trash_dirs):  # type: TrashDir
             for trash_info_path in self.trash_dir_reader.list_trashinfo(
                     trash_dir.path):
                 if self.delete_mode.ok_to_delete(trash_info_path, environ,
                                                  parsed_days):
-                    yield (path_of_backup_copy(trash_info_path))
-                    yield trash_info_path
+                    yield [path_of_backup_copy(trash_info_path),
+                           trash_info_path]
             for orphan in self.trash_dir_reader.list_orphans(
                     trash_dir.path):
-                yield orphan
+                yield [orphan]
